@@ -76,7 +76,7 @@ def cases(ctx):
         for s in (exp, exp.upper()):
             yield Case(f'sw_decode {ty}/{nh(net)} {ver} {sh(s)}', 'gms', nontrivial=net != 'testnet', tag='recreate',
                        spec=lambda ans, prog=prog: (f's:raw ok {hx(prog)}', ans))
-            yield Case(f'is_bech32 {sh(s)}', 'ms', nontrivial=True, tag='predicate', spec=lambda ans: ('s:raw ok 1', ans))
+            yield Case(f'is_bech32 {sh(s)}', 'gms', nontrivial=True, tag='predicate', spec=lambda ans: ('s:raw ok 1', ans))
         # the translated constructor (class string -> numeric version; witness_program wins over address) against the implementation
         if rng.random() < 0.5:
             other = G.rbytes(rng, ln)
@@ -128,7 +128,7 @@ def cases(ctx):
             yield Case(f'sw_decode {ty}/{nh(net)} {ver} {sh(m)}', 'gms', nontrivial=True, tag='reject-' + kind,
                        spec=lambda ans: ('s:raw err', ans))
             if kind in ('unicode-confusable', 'mixed-case', 'badchar', 'truncate'):
-                yield Case(f'is_bech32 {sh(m)}', 'ms', nontrivial=True, tag='predicate-' + kind, spec=lambda ans: ('s:raw ok 0', ans))
+                yield Case(f'is_bech32 {sh(m)}', 'gms', nontrivial=True, tag='predicate-' + kind, spec=lambda ans: ('s:raw ok 0', ans))
     # the leaves of bech32.py: implementation vs hand model vs the code generated from the current source (tier T).
     # Natural-number arguments go to all three; negative / oversized ones only to the generated code (the hand model is over Nat).
     def ints(xs): return ' '.join([str(len(xs))] + [str(x) for x in xs])
@@ -183,9 +183,9 @@ def cases(ctx):
     from harness.props.c10 import b58c
     for _ in range(ctx.n(30, 500)):
         s = b58c(rng.choice([b'\x00', b'\x05', b'\x6f', b'\xc4']) + G.rbytes(rng, 20))
-        yield Case(f'is_bech32 {sh(s)}', 'ms', nontrivial=True, tag='predicate-b58', spec=lambda ans: ('s:raw ok 0', ans))
+        yield Case(f'is_bech32 {sh(s)}', 'gms', nontrivial=True, tag='predicate-b58', spec=lambda ans: ('s:raw ok 0', ans))
     for s in ('', '1', 'bc1', 'abc', 'bc1qqqqqq'):
-        yield Case(f'is_bech32 {sh(s) if s else "-"}', 'ms', nontrivial=True, tag='predicate-junk', spec=lambda ans: ('s:raw ok 0', ans))
+        yield Case(f'is_bech32 {sh(s) if s else "-"}', 'gms', nontrivial=True, tag='predicate-junk', spec=lambda ans: ('s:raw ok 0', ans))
 
 
 _CONF = {}
